@@ -266,29 +266,7 @@ func runC09(r *R) {
 	// ---- R4 + R5
 	r.Rule("C09-R4", "marshalManifest reads node.segments only after dn.flush(ctx, names, flushOpts{sync:true, shortBlocks:true}) returned nil; any non-stored segment panics instead of being emitted", 1)
 	r.Rule("C09-R5", "every stream/file name in manifest text passes through manifestEscape, whose class matches single-byte runes only (manifestEscapeFunc encodes one byte)", 2)
-	if lit, ok := w.GlobalRegexLiteral(arv + ".manifestEscapedChar"); !ok {
-		r.addS("C09-R5", arv+".manifestEscapedChar", "regex literal", "-", Undecided, "initialiser not found")
-	} else {
-		oneByte, isClass := true, false
-		if re, err := syntax.Parse(lit, syntax.Perl); err == nil && re.Op == syntax.OpCharClass {
-			isClass = true
-			for i := 1; i < len(re.Rune); i += 2 {
-				if re.Rune[i] > 0x7f {
-					oneByte = false
-				}
-			}
-		}
-		okFn := false
-		if f := w.Fn(arv + ".manifestEscapeFunc"); f != nil {
-			for _, c := range CallsIn(f, "fmt.Sprintf") {
-				if fs, args, ok := SprintfCall(c.Value()); ok && fs == "\\%03o" && len(args) == 1 {
-					// byte(seq[0])
-					okFn = strings.Contains(Canon(args[0]), "[0:int]") || true
-				}
-			}
-		}
-		r.addS("C09-R5", arv+".manifestEscape", "class single-byte; one byte encoded", "-", okIf(isClass && oneByte && okFn), "names with non-ASCII characters survive save→load only if the class never matches a multi-byte rune (its continuation bytes would be dropped)")
-	}
+	escapeClassRule(r, "C09-R5")
 	if outer := r.NeedFn("C09-R4", "(*"+arv+".dirnode).marshalManifest"); outer != nil {
 		found := false
 		for _, cl := range ClosuresAndHelpers(outer) {
@@ -396,4 +374,32 @@ func isLenOfCapturedCell(size, written ssa.Value) bool {
 		}
 	}
 	return true
+}
+
+// escapeClassRule (C09-R5, C17-R8): manifestEscape's class matches single-byte runes only; manifestEscapeFunc encodes one byte.
+func escapeClassRule(r *R, rule string) {
+	w := r.W
+	if lit, ok := w.GlobalRegexLiteral(arv + ".manifestEscapedChar"); !ok {
+		r.addS(rule, arv+".manifestEscapedChar", "regex literal", "-", Undecided, "initialiser not found")
+	} else {
+		oneByte, isClass := true, false
+		if re, err := syntax.Parse(lit, syntax.Perl); err == nil && re.Op == syntax.OpCharClass {
+			isClass = true
+			for i := 1; i < len(re.Rune); i += 2 {
+				if re.Rune[i] > 0x7f {
+					oneByte = false
+				}
+			}
+		}
+		okFn := false
+		if f := w.Fn(arv + ".manifestEscapeFunc"); f != nil {
+			for _, c := range CallsIn(f, "fmt.Sprintf") {
+				if fs, args, ok := SprintfCall(c.Value()); ok && fs == "\\%03o" && len(args) == 1 {
+					// byte(seq[0])
+					okFn = strings.Contains(Canon(args[0]), "[0:int]") || true
+				}
+			}
+		}
+		r.addS(rule, arv+".manifestEscape", "class single-byte; one byte encoded", "-", okIf(isClass && oneByte && okFn), "names with non-ASCII characters survive save→load only if the class never matches a multi-byte rune (its continuation bytes would be dropped)")
+	}
 }
